@@ -126,6 +126,12 @@ def _col_setitem(self, index, value):
                 value = v
             elif not isinstance(value, (list, tuple)):
                 value = arrays.cast_value(value, dt)
+    if core.ctx() is not None:
+        try:
+            info, cells = arrays.cells_of(real_np.ndarray.view(self, real_np.ndarray), index)
+            info.wcount[cells] += 1          # write counter (the 'exactly once' obligations)
+        except Exception:
+            pass
     return _orig_col_setitem(self, index, value)
 
 
